@@ -156,6 +156,9 @@ func init() {
 					v = load(e.t.Underlying().(*types.Pointer).Elem(), p)
 				}
 			}
+			if cells, ok := v.([]value); ok {
+				fr.raceSlice(cells, false, "a slice element (gob encode)")
+			}
 			f.data = append(f.data, cloneAgg(v))
 			return nilErr
 		},
@@ -172,6 +175,7 @@ func init() {
 			}
 			e := args[1].(iface)
 			p := e.v.(*value)
+			fr.raceAccess(e.t.Underlying().(*types.Pointer).Elem(), p, true)
 			store(e.t.Underlying().(*types.Pointer).Elem(), p, cloneAgg(f.data[f.rpos]))
 			f.rpos++
 			return nilErr
